@@ -44,6 +44,15 @@ CLAIMED = {
          "effective_tags inheritance feeds a symbolic tag set; per scenario the selection decision, statuses, call log and hooks are "
          "checked against the expression's formula over own+inherited presence Booleans", "DESIGN.md 4/C09",
          "symbolic execution of real code + z3 (tag presence symbolic, bounded trees and expression pool)"),
+ "C04": ("the real parser runs on documents rendered from abstract trees whose lines are symbolic over their variants (keyword alias, "
+         "indentation, trailing blanks/comments, cell padding, filler lines) inside a sliding window; the parsed model (structure, names, "
+         "tags, step types incl. And/But/* inheritance, doc-strings, table cells, 1-based line numbers) is compared with the tree by "
+         "solver queries; languages via '# language:' headers from the live keyword table", "DESIGN.md 4/C04",
+         "symbolic execution of real code + z3 (finite line alphabets merged by the parser's own predicates)"),
+ "C05": ("K-line documents with every line symbolic over the line alphabet pushed through all five parser entry points: the call must "
+         "return or raise ParserError with 1 <= line <= K; catalogued grammar faults injected at a symbolic position into valid rendered "
+         "documents must be reported at the injected line", "DESIGN.md 4/C05",
+         "symbolic execution of real code + z3 (finite line alphabets merged by the parser's own predicates; symbolic fault position)"),
 }
 NA_REASON = "check not built yet in this round (planned, see DESIGN.md section 4)"
 checks = []
